@@ -210,7 +210,11 @@ pub trait ChainStore: Send + Sync + Sized {
             ret
         };
 
-        if let Some(cache) = self.cache() {
+        // every stored block has a cellbase: an empty answer means the block is not here (yet)
+        // and must not be remembered
+        if let Some(cache) = self.cache()
+            && !ret.is_empty()
+        {
             cache.block_tx_hashes.lock().put(hash.clone(), ret.clone());
         }
 
@@ -290,7 +294,11 @@ pub trait ChainStore: Send + Sync + Sized {
                     .and_then(|block| block.extension())
             });
 
-        if let Some(cache) = self.cache() {
+        // "no extension" is remembered only for a block the store has: an answer given before
+        // the block arrives must not shadow the extension it brings
+        if let Some(cache) = self.cache()
+            && (ret.is_some() || self.get(COLUMN_BLOCK_HEADER, hash.as_slice()).is_some())
+        {
             cache.block_extensions.lock().put(hash.clone(), ret.clone());
         }
         ret
